@@ -73,5 +73,13 @@ TSetSeed ==
   /\ Chk("evaluated_exactly_the_outdated_ones_once", SeqToSet(Ev.evald) = evald' \cap ObsNode)
   /\ Step
 
-TNext == TSetSeed \/ TRebuild \/ TAssign \/ TSetAuto \/ TUpdateAll \/ TUpdateTargets \/ TSave \/ TRestore
+\* the model is written with save_model and read back; the history goes on with the copy
+TReload ==
+  /\ IsEvent("reload") /\ Reload
+  /\ Chk("model_read_back_is_in_the_state_it_was_saved_in", 
+         /\ \A i \in ObsNode : Ev.val[i] = Eff(val')[i] /\ Ev.outd[i] = Outd(flag')[i]
+         /\ Ev.evald = <<>> /\ ~Ev.raised /\ Ev.auto = auto')
+  /\ Obs /\ Step
+
+TNext == TReload \/ TSetSeed \/ TRebuild \/ TAssign \/ TSetAuto \/ TUpdateAll \/ TUpdateTargets \/ TSave \/ TRestore
 =============================================================================
